@@ -456,6 +456,52 @@ impl Exec {
                     out.push(("collision".into(), json!([u64j(a), u64j(b), u64j(z)])));
                 }
             }
+            "eq_search" => {
+                // Soundness of a hand-written ==: among n generators built from the seeds k = 0..n (k as 8
+                // little-endian bytes, zero padded) look for two DIFFERENT seeds that compare equal.  Nothing is
+                // decided here: the pairs found are handed back and then driven in lock-step by a schedule.
+                let kind = op["kind"].as_str().unwrap().to_string();
+                let n = get_u64(op, "n") as usize;
+                let len = get_u64(op, "seed_len") as usize;
+                let threads = op.get("threads").and_then(|v| v.as_u64()).unwrap_or(8) as usize;
+                let mut gens: Vec<Box<dyn Dyn>> = Vec::with_capacity(n);
+                for k in 0..n {
+                    let mut seed = vec![0u8; len];
+                    seed[..8].copy_from_slice(&(k as u64).to_le_bytes());
+                    match construct(&kind, Ctor::FromSeed(&seed)) {
+                        Built::Ok(g) => gens.push(g),
+                        _ => panic!("schedule error: cannot construct {}", kind),
+                    }
+                }
+                struct Shared(Vec<Box<dyn Dyn>>);
+                unsafe impl Sync for Shared {}
+                let shared = Shared(gens);
+                let found: Mutex<Vec<(usize, usize)>> = Mutex::new(Vec::new());
+                std::thread::scope(|sc| {
+                    for t in 0..threads {
+                        let shared = &shared;
+                        let found = &found;
+                        sc.spawn(move || {
+                            let g = &shared.0;
+                            let mut i = t;
+                            while i < g.len() {
+                                for j in (i + 1)..g.len() {
+                                    if g[i].eq_dyn(g[j].as_ref()) == Some(true) {
+                                        let mut f = found.lock().unwrap();
+                                        if f.len() < 8 {
+                                            f.push((i, j));
+                                        }
+                                    }
+                                }
+                                i += threads;
+                            }
+                        });
+                    }
+                });
+                let f = found.into_inner().unwrap();
+                out.push(("searched".into(), json!(n)));
+                out.push(("pairs".into(), Value::Array(f.iter().map(|&(a, b)| json!([a, b])).collect())));
+            }
             "jit_std_new" => {
                 // JitterRng::new() with the platform timer: only "did it panic" and
                 // the Ok/Err class are recorded; values are real entropy.
